@@ -629,6 +629,29 @@ class Interp:
             self.call_stack.pop()
             self.depth -= 1
 
+    def call_function_slice(self, finfo: FuncInfo, args, stmt_indices):
+        """execute only the given top-level statements of the function body (sequential composition is proved
+        statement by statement against one mid-condition, see Contract.slice)"""
+        node = finfo.node
+        a = node.args
+        params = [x.arg for x in a.posonlyargs + a.args]
+        locals_ = dict(zip(params, args))
+        fr = Frame(finfo, locals_)
+        body = [st for st in node.body if not (isinstance(st, ast.Expr) and isinstance(st.value, ast.Constant))]
+        self.depth += 1
+        self.call_stack.append(finfo)
+        try:
+            for i in stmt_indices:
+                if i >= len(body):
+                    raise CheckerError(f"{finfo.fq}: slice index {i} beyond the function body ({len(body)} statements)")
+                self.exec_stmt(body[i], fr)
+            return None
+        except ReturnSig as r:
+            return r.value
+        finally:
+            self.call_stack.pop()
+            self.depth -= 1
+
     def construct(self, cls, args, kwargs, node):
         """Instantiate a real class symbolically."""
         w = self.world
